@@ -55,6 +55,22 @@ def r13_1(run):
     trans = tab.of_state(plus[0])
     names = [dotted(t['matcher']) for t in trans]
     ok = len(names) >= 2 and names[0] == 'self._is_end_line'
+    if not ok and len(names) == 2 and set(names) == set(['self._is_end_line', 'self._is_not_end_line']):
+        # the order of two matchers only matters where both can match: not when one is the exact negation of the other
+        ci_ = run.idx.cls('TorControlProtocol', MOD)
+        e_, ne_ = run.idx.find_method(ci_, '_is_end_line'), run.idx.find_method(ci_, '_is_not_end_line')
+
+        def _ret(u_):
+            rs = [x for x in walk_unit(u_) if isinstance(x, ast.Return)] if u_ is not None else []
+            return rs[0].value if len(rs) == 1 else None
+        re_, rn_ = _ret(e_), _ret(ne_)
+        if re_ is not None and rn_ is not None:
+            lp_ = ne_.params[1] if len(ne_.params) > 1 else 'line'
+            neg_call = isinstance(rn_, ast.UnaryOp) and isinstance(rn_.op, ast.Not) and isinstance(rn_.operand, ast.Call) and dotted(rn_.operand.func) == 'self._is_end_line'
+            both_cmp = isinstance(re_, ast.Compare) and isinstance(rn_, ast.Compare) and len(re_.ops) == 1 and len(rn_.ops) == 1 and \
+                isinstance(re_.ops[0], ast.Eq) and isinstance(rn_.ops[0], ast.NotEq) and const(re_.comparators[0]) == const(rn_.comparators[0]) == '.' and \
+                isinstance(re_.left, ast.Name) and isinstance(rn_.left, ast.Name)
+            ok = neg_call or both_cmp
     run.ob('R13.1', init, init.node, 'the lone "." terminator is matched before data lines', ok, slot='end-first', message='RECV_PLUS transitions in order: %s' % names)
 
 
